@@ -187,15 +187,14 @@ CLAIMED = {
              'is "symbol list empty" if and only if the supplied list is empty (the repaired upper_limit fallback is proved to return Some for every '
              'non-empty list) and every other refusal is "too much or illegal data"; C11_macro_total, C11_eci_total (every ECI <= 999999), '
              'C11_padding_total -- the glue cannot panic; C11_mode_encoders -- the six mode encoders raise no other error and never change the symbol '
-             'list or mode set; C11_panic_source -- a panic of the entry point can only originate in the planner or in the main loop; C11_planner_total -- the planner never panics: for every input, symbol list, start mode, all 64 mode sets and every sort that returns a sub-list of its input, optimize returns (invariants of the five plan implementations in lock-step: look-ahead digits, at most two pending C40 values, no unlatch after the X12/EDIFACT end-of-data decision, legal Frac denominators, as_start only on one-switch plans, agreement of all plans on end-of-data; an edge of fuel per iteration), hence C11_encodation_plan_total and C11_panic_is_main_loop; C11_abxe_total / C11_abx_total / C11_ab_total -- for every mode set within {ASCII, Base256, X12, EDIFACT} (sixteen of the 64 sets) the WHOLE property is a theorem (every byte string, list, macro / FNC1 option, ECI up to 999999: never a panic): the planner guarantees strictly decreasing positions, ASCII runs that end at item boundaries of the greedy ASCII encodation Base256 runs of at most 1555 / 1556 bytes and X12 runs of native characters in whole triples (Proofs/PlanAlign.v, also C18_plan_aligned), and under such plans no assertion of the main loop, of maybe_switch_mode, of the Base256 length field, of the X12 value table or of the EDIFACT end-of-data handling is reachable (Proofs/EncABTotal.v, EncABXTotal.v, EncABXETotal.v). The '
-             'planner terminates within the bound of C19. PARTIAL (mode sets that contain C40 or Text): that the main loop\'s assertions (maybe_switch_mode, the no-progress guard, '
-             'x12/edifact/base256 internal asserts) never fire is planner/encoder agreement and is NOT a theorem; it is decided by running the '
+             'list or mode set; C11_panic_source -- a panic of the entry point can only originate in the planner or in the main loop; C11_planner_total -- the planner never panics: for every input, symbol list, start mode, all 64 mode sets and every sort that returns a sub-list of its input, optimize returns (invariants of the five plan implementations in lock-step: look-ahead digits, at most two pending C40 values, no unlatch after the X12/EDIFACT end-of-data decision, legal Frac denominators, as_start only on one-switch plans, agreement of all plans on end-of-data; an edge of fuel per iteration), hence C11_encodation_plan_total and C11_panic_is_main_loop; C11_total -- THE WHOLE PROPERTY is a theorem of the model: for every byte string, every symbol list, all 64 mode sets, macro / FNC1 option, every ECI up to 999999 and every sub-list sort (all tie-breaks of sort_unstable) the entry point returns a value or an error and never panics, trips an assertion, overflows or exhausts a loop bound; C11_value_or_classified_error states it in the words of the property (a value, or an error that is symbol-list-empty exactly for the empty list), C11_builder_total lifts it through encode_eci with the Reed-Solomon step. Behind it: the planner guarantees strictly decreasing positions, alternating modes, ASCII runs that end at item boundaries of the greedy ASCII encodation, Base256 runs of at most 1555 / 1556 bytes and X12 runs of native characters in whole triples (Proofs/PlanAlign.v, also C18_plan_aligned); under such plans no assertion of the main loop, of maybe_switch_mode, of the Base256 length field, of the X12 value table, of the EDIFACT end-of-data handling or of the C40 / Text value buffer is reachable, backup() stays inside the message and every run that consumes a character writes at least two codewords (Proofs/EncABTotal.v, EncABXTotal.v, EncABXETotal.v, EncAllTotal.v; C11_ab_total, C11_abx_total, C11_abxe_total are the stages for the smaller mode sets). The '
+             'planner terminates within the bound of C19. What the theorems cannot say is that the model is the code: that is the correspondence, which runs the '
              'implementation in debug and release builds with panics caught, and the model (every panic site explicit), on the same inputs: all '
              '64 mode subsets incl. the empty one and those without ASCII, empty / single / two-symbol lists, macro fragments, FNC1, ECI. '
              'Four defects of the pinned tree were repaired (fix: commits).',
         design_ref='DESIGN.md 6/C11',
         note='Trusted: Coq kernel, translator, extraction, harness with catch_unwind, sort-trace hook; allocation failure outside the model. No axioms.',
-        technique='Coq proof: error-class and frame lemmas for the whole encoder, totality of the glue; debug/release differential correspondence with explicit panic outcomes for the main loop'),
+        technique='Coq proof: totality of planner and all six mode encoders under the planner\'s plan invariants (no panic for every input and configuration), error-class and frame lemmas; debug/release differential correspondence with explicit panic outcomes ties the model to the code'),
     'C10': dict(
         text='Theorems (Coq, axiom-free): C10_first_fit -- for every input, sorted list, mode set, option and planner, the symbol returned is the first '
              'listed symbol whose capacity holds the stream the encoder produced (nothing is lost to the symbol choice; later symbols never have '
